@@ -29,7 +29,7 @@ func Pair(opts *syntax.FileOptions, src string) (what, desc string, vmOK bool, v
 }
 
 // HostEnvNames lists the predeclared names the generated programs use.
-func HostEnvNames() []string { return []string{"t", "tick", "trace", "struct"} }
+func HostEnvNames() []string { return []string{"t", "tick", "trace", "struct", "obj"} }
 
 // StaticEnv returns an environment (and its event log length accessor) for checking that a
 // rejected program runs no code.
